@@ -131,8 +131,28 @@ def str_assign(E, st, a):      # _M_assign(this, const string&)
 def str_erase(E, st, a):       # _M_erase(this, pos, n)
     this, pos, n = a
     S = Str(E, st, this); old = S.data(); S.assign_bytes(old[:pos] + old[pos+n:]); return None
-def str_compare(E, st, a):     # compare(const string&) / compare(const char*)
-    raise Unsupported("std::string::compare")
+def _cmp_bytes(E, st, x, y):
+    for u, v in zip(x, y):
+        if not (is_c(u) and is_c(v)):
+            if E.branch(st, bv(u, 8) != bv(v, 8)):
+                return 1 if E.branch(st, z3.UGT(bv(u, 8), bv(v, 8))) else 0xffffffff
+            continue
+        if u != v: return 1 if u > v else 0xffffffff
+    d = len(x) - len(y)
+    return 0 if d == 0 else (1 if d > 0 else 0xffffffff)
+def str_compare(E, st, a):     # compare(const string&)
+    return _cmp_bytes(E, st, Str(E, st, a[0]).data(), Str(E, st, a[1]).data())
+def str_compare_cstr(E, st, a):
+    return _cmp_bytes(E, st, Str(E, st, a[0]).data(), list(E.read_cstr(st, a[1])))
+def str_push_back(E, st, a):
+    S = Str(E, st, a[0]); S.assign_bytes(S.data() + [a[1]]); return None
+def str_ctor_default(E, st, a):
+    Str(E, st, a[0]).init_local(); return None
+def str_ctor_move(E, st, a):
+    this, other = a[0], a[1]
+    S = Str(E, st, this); O = Str(E, st, other); S.init_local(); S.assign_bytes(O.data()); O.assign_bytes([]); return None
+def str_c_str(E, st, a): return Str(E, st, a[0]).p()
+def str_size(E, st, a): return Str(E, st, a[0]).size()
 def str_ctor_cstr(E, st, a):   # basic_string(const char*, const allocator&)
     this, s = a[0], a[1]
     if s.obj == 0: raise Violation('null-deref', "std::string constructed from null")
@@ -258,6 +278,14 @@ BASIC = {
     '_ZNSt7__cxx1112basic_stringIcSt11char_traitsIcESaIcEEC1ERKS4_': str_ctor_copy,
     '_ZNSt7__cxx1112basic_stringIcSt11char_traitsIcESaIcEEC2ERKS4_': str_ctor_copy,
     '_ZNSt7__cxx1112basic_stringIcSt11char_traitsIcESaIcEED1Ev': str_dtor,
+    '_ZNKSt7__cxx1112basic_stringIcSt11char_traitsIcESaIcEE7compareERKS4_': str_compare,
+    '_ZNKSt7__cxx1112basic_stringIcSt11char_traitsIcESaIcEE7compareEPKc': str_compare_cstr,
+    '_ZNSt7__cxx1112basic_stringIcSt11char_traitsIcESaIcEE9push_backEc': str_push_back,
+    '_ZNSt7__cxx1112basic_stringIcSt11char_traitsIcESaIcEEpLEc': lambda E, st, a: (str_push_back(E, st, a), a[0])[1],
+    '_ZNSt7__cxx1112basic_stringIcSt11char_traitsIcESaIcEEC1Ev': str_ctor_default, '_ZNSt7__cxx1112basic_stringIcSt11char_traitsIcESaIcEEC2Ev': str_ctor_default,
+    '_ZNSt7__cxx1112basic_stringIcSt11char_traitsIcESaIcEEC1EOS4_': str_ctor_move, '_ZNSt7__cxx1112basic_stringIcSt11char_traitsIcESaIcEEC2EOS4_': str_ctor_move,
+    '_ZNKSt7__cxx1112basic_stringIcSt11char_traitsIcESaIcEE5c_strEv': str_c_str, '_ZNKSt7__cxx1112basic_stringIcSt11char_traitsIcESaIcEE4dataEv': str_c_str,
+    '_ZNKSt7__cxx1112basic_stringIcSt11char_traitsIcESaIcEE4sizeEv': str_size, '_ZNKSt7__cxx1112basic_stringIcSt11char_traitsIcESaIcEE6lengthEv': str_size,
     '_ZNSt7__cxx1112basic_stringIcSt11char_traitsIcESaIcEED2Ev': str_dtor,
     '_ZSt29_Rb_tree_insert_and_rebalancebPSt18_Rb_tree_node_baseS0_RS_': rb_insert,
     '_ZSt18_Rb_tree_incrementPSt18_Rb_tree_node_base': rb_incr, '_ZSt18_Rb_tree_incrementPKSt18_Rb_tree_node_base': rb_incr,
